@@ -64,7 +64,12 @@ def run_cfg(ctx, p, cfg):
 
     with ctx.rule("P3", "width accumulation is checked", cfg) as r:
         cone = cone_of(p)
-        accs = [p.fns[x] for x in cone if p.fns[x].calls("core::char::methods::<impl char>::to_digit")]
+        accs = {}
+        for x in cone:
+            if p.fns[x].calls("core::char::methods::<impl char>::to_digit"):
+                root = p.fns[x].d.get("closure_of") or x   # a digit test written inside a closure belongs to its function
+                accs[root] = p.fn(root)
+        accs = [accs[k] for k in sorted(accs)]
         r.require(len(accs) == 1, "accumulator-function", detail="functions in the cone parsing decimal digits: %s" % [a.path for a in accs])
         for f in accs:
             scope = [f] + p.closures_of(f.path)
